@@ -9,8 +9,6 @@ Import ListNotations.
 Open Scope nat_scope. Open Scope string_scope. Open Scope list_scope.
 
 (** ** the trailing semicolon: present exactly for unit and tuple structs *)
-Definition semi_struct (ir : type_ir) : Prop :=
-  exists c, ti_kind ir = KStruct c /\ (ci_kind c = CNoFields \/ exists fs, ci_kind c = CUnnamed fs).
 
 Lemma item_semi s ir : pi_semi (item_of_ir s ir) = true <-> semi_struct ir.
 Proof.
@@ -1013,9 +1011,6 @@ Proof.
 Qed.
 
 (** ** the full chain: generation, emission, independent reading, closedness *)
-Definition wrappers_fresh (s : settings) : Prop :=
-  (forall c, s_compact s = Some c -> hd_is (s_root s) c = false) /\
-  (forall b, s_bits s = Some b -> hd_is (s_root s) b = false).
 
 Theorem closedb_emitted r s teq m :
   Proofs.ClosedProofs.root_fresh s -> starts_with "_" (s_root s) = false -> wrappers_fresh s ->
@@ -1159,4 +1154,19 @@ Proof.
   assert (Hget : items_get m p = Some (id, ir)) by (apply (items_get_In_iff m Hsorted); exact Hin).
   destruct (generate_items_come_from_entries _ _ _ _ _ _ _ Hg Hget) as (t & flat & _ & Hpath & _ & _ & Hc).
   destruct (create_type_ir_name_params _ _ _ _ _ Hc) as (Hne & _ & _). rewrite Hpath in Hne. exact Hne.
+Qed.
+
+(** ** a decidable test for prefix-freeness *)
+Lemma firstn_len_app {T : Type} (p r : list T) : firstn (List.length p) (p ++ r) = p.
+Proof. induction p as [|a p IH]; [reflexivity|]. cbn [List.length app firstn]. rewrite IH. reflexivity. Qed.
+
+Lemma prefix_freeb_sound (m : items) : prefix_freeb (map fst m) = true -> keys_prefix_free m.
+Proof.
+  unfold prefix_freeb, keys_prefix_free. intros H p q x l Hp Hq E.
+  rewrite forallb_forall in H. specialize (H p Hp). rewrite forallb_forall in H. specialize (H q Hq).
+  apply negb_true_iff in H. unfold is_proper_prefix in H. subst q.
+  rewrite firstn_len_app, app_length in H. cbn [List.length] in H.
+  rewrite (list_eqb_refl String.eqb String.eqb_refl) in H.
+  assert (Hlt : Nat.ltb (List.length p) (List.length p + S (List.length l)) = true) by (apply Nat.ltb_lt; lia).
+  rewrite Hlt in H. discriminate H.
 Qed.
